@@ -1,5 +1,6 @@
 (* driver for the extracted device list model: same line protocol as harness/h_devlist.cpp
-     DL <t0> | M <dt> <pgn> <src> <dst> <datahex> [<sendok>] ; ... ; Q *)
+     DL <t0> | M <dt> <pgn> <src> <dst> <datahex> [<sendok>] ; ... ; Q
+     DLS <t0>,<t0>,.. | ...     the same history once per clock origin, results joined by " || " *)
 exception Stop of string
 let two32 = z_of_string "4294967296"
 let zs = string_of_z
@@ -38,7 +39,7 @@ let () =
          let head = split (String.sub line 0 bar) in
          let rest = String.sub line (bar + 1) (String.length line - bar - 1) in
          (match head with
-          | ["DL"; t0] ->
+          | [("DL" | "DLS") as kind; t0s] when (kind = "DLS" || not (String.contains t0s ',')) ->
             let ops = List.filter (fun o -> o <> []) (List.map split (String.split_on_char ';' rest)) in
             let parsed = List.map (fun o -> match o with
                 | "M" :: dt :: pgn :: src :: _dst :: data :: tl ->
@@ -50,6 +51,7 @@ let () =
             let names = List.fold_left (fun acc o -> match o with
                 | `M (_, m, _) when int_of_z m.b_pgn = 60928 -> let n = claim_name m in if List.mem n acc then acc else acc @ [n]
                 | _ -> acc) [Z0] parsed in
+            let one t0 =
             let now = ref (Z.modulo (z_of_string t0) two32) in
             let st = ref init_state in
             let outs = List.map (fun o -> match o with
@@ -61,7 +63,10 @@ let () =
                   Printf.sprintf "u=%s req=%s" (bool_s u)
                     (if rq = [] then "-" else String.concat "," (List.map (fun (d, p) -> Printf.sprintf "%s:%s:%s" (zs !now) (zs d) (zs p)) rq))
                 | `Q -> dump !st names) parsed in
-            print_string (String.concat " ; " outs)
+            String.concat " ; " outs in
+            let t0l = List.filter (fun x -> x <> "") (String.split_on_char ',' t0s) in
+            if t0l = [] then raise (Stop "badcase");
+            print_string (String.concat " || " (List.map one t0l))
           | _ -> print_string "badcase"))
     with Stop s -> print_string s);
     print_newline ()
